@@ -328,21 +328,8 @@ def named_const(name):
 
 
 def box_axioms():
-    """Injectivity of boxing, tags, truthiness of boxed scalars."""
-    i, s, b = z3.Int('bx_i'), z3.String('bx_s'), z3.Bool('bx_b')
-    ax = [
-        z3.ForAll([i], z3.And(unbox_int(box_int(i)) == i,
-                              tag_fn(box_int(i)) == 2,
-                              truthy_fn(box_int(i)) == (i != 0))),
-        z3.ForAll([s], z3.And(unbox_str(box_str(s)) == s,
-                              tag_fn(box_str(s)) == 4,
-                              truthy_fn(box_str(s)) == (z3.Length(s) > 0))),
-        z3.ForAll([b], z3.And(unbox_bool(box_bool(b)) == b,
-                              tag_fn(box_bool(b)) == 1,
-                              truthy_fn(box_bool(b)) == b)),
-        tag_fn(NONE_VAL) == 0,
-        z3.Not(truthy_fn(NONE_VAL)),
-    ]
+    """Ground facts about None and the named opaque singletons."""
+    ax = [tag_fn(NONE_VAL) == 0, z3.Not(truthy_fn(NONE_VAL))]
     names = list(_named_consts.values())
     for c in names:
         ax.append(tag_fn(c) == 5)
@@ -350,6 +337,55 @@ def box_axioms():
     if len(names) > 1:
         ax.append(z3.Distinct(*names))
     return ax
+
+
+def box_instances(formulas):
+    """Instances of the boxing axioms (injectivity via unbox, tag,
+    truthiness) for every box_* application occurring in the formulas.
+    The axioms are per-term, so term instantiation is complete for them and
+    keeps the query quantifier-free."""
+    seen, out, done = set(), [], set()
+    todo = list(formulas)
+    while todo:
+        x = todo.pop()
+        i = x.get_id()
+        if i in seen:
+            continue
+        seen.add(i)
+        if z3.is_quantifier(x):
+            todo.append(x.body())
+            continue
+        if z3.is_app(x):
+            nm = x.decl().name() if x.num_args() == 1 else None
+            if nm in ('box_int', 'box_str', 'box_bool', 'box_real') and \
+                    not _has_bound_var(x):
+                a = x.arg(0)
+                if nm == 'box_int':
+                    out += [unbox_int(x) == a, tag_fn(x) == 2,
+                            truthy_fn(x) == (a != 0)]
+                elif nm == 'box_str':
+                    out += [unbox_str(x) == a, tag_fn(x) == 4,
+                            truthy_fn(x) == (z3.Length(a) > 0)]
+                elif nm == 'box_bool':
+                    out += [unbox_bool(x) == a, tag_fn(x) == 1,
+                            truthy_fn(x) == a]
+                else:
+                    out += [tag_fn(x) == 3, truthy_fn(x) == (a != 0)]
+            todo.extend(x.children())
+    return out
+
+
+def _has_bound_var(t):
+    todo, seen = [t], set()
+    while todo:
+        x = todo.pop()
+        if x.get_id() in seen:
+            continue
+        seen.add(x.get_id())
+        if z3.is_var(x):
+            return True
+        todo.extend(x.children())
+    return False
 
 
 def box(v):
